@@ -175,6 +175,10 @@ class Engine:
             if self.val["CO"] is None:
                 return p.assumed(t)
             return self.val["CO"]
+        if k == "cmp" and t[1] in ("is", "is not", "==", "!=") and isinstance(t[2], tuple) and isinstance(t[3], tuple) and t[2][:1] == ("const",) and t[3][:1] == ("const",):
+            # two literals (a label helper that returned "fix" / None, tested with `flag is None`)
+            same = t[2][1] is t[3][1] if t[1] in ("is", "is not") and (t[2][1] is None or t[3][1] is None or isinstance(t[2][1], bool)) else t[2][1] == t[3][1]
+            return same if t[1] in ("is", "==") else (not same)
         if k == "cmp" and t[1] in ("is", "is not") and (t[3] == UNDEF or t[2] == UNDEF):
             x = t[2] if t[3] == UNDEF else t[3]
             r = None
